@@ -22,7 +22,6 @@ use super::{
     information_object_class::object_set,
     into_inner,
     parameterization::parameters,
-    skip_ws,
     util::{opt_delimited, take_until_and_not, take_until_unbalanced},
 };
 
@@ -524,10 +523,10 @@ fn content_constraint(input: Input<'_>) -> ParserResult<'_, ContentConstraint> {
         skip_ws_and_comments(alt((
             map(
                 pair(
-                    preceded(skip_ws_and_comments(tag(CONTAINING)), skip_ws(asn1_type)),
+                    preceded(skip_ws_and_comments(tag(CONTAINING)), skip_ws_and_comments(asn1_type)),
                     preceded(
                         skip_ws_and_comments(keyword(ENCODED_BY)),
-                        skip_ws(asn1_value),
+                        skip_ws_and_comments(asn1_value),
                     ),
                 ),
                 |v| ContentConstraint::ContainingEncodedBy {
@@ -536,13 +535,13 @@ fn content_constraint(input: Input<'_>) -> ParserResult<'_, ContentConstraint> {
                 },
             ),
             map(
-                preceded(skip_ws_and_comments(tag(CONTAINING)), skip_ws(asn1_type)),
+                preceded(skip_ws_and_comments(tag(CONTAINING)), skip_ws_and_comments(asn1_type)),
                 ContentConstraint::Containing,
             ),
             map(
                 preceded(
                     skip_ws_and_comments(keyword(ENCODED_BY)),
-                    skip_ws(asn1_value),
+                    skip_ws_and_comments(asn1_value),
                 ),
                 ContentConstraint::EncodedBy,
             ),
